@@ -38,6 +38,9 @@ type binder struct {
 	// structSrc: rendered text of a struct value that a module helper returned -> where it came from (shared between a
 	// binder and the binders made from it): `text.field` can then be read as what the helper put into that field
 	structSrc map[string]structSource
+	// structLits: rendered text of a struct literal built in place (field stores into a fresh variable) -> field -> text
+	structLits map[string]map[string]string
+	litForm    bool // render struct literals built in place as lit(T){...} (off: zero(T), fields are found through the variable)
 }
 
 type structSource struct {
@@ -47,7 +50,7 @@ type structSource struct {
 }
 
 func newBinder(c *Ctx, carriers ...string) *binder {
-	b := &binder{c: c, memo: map[ssa.Value]string{}, busy: map[ssa.Value]bool{}, carriers: map[string]bool{}, fieldSrc: map[string][]ssa.Value{}, classOf: map[string]string{}, structSrc: map[string]structSource{}}
+	b := &binder{c: c, memo: map[ssa.Value]string{}, busy: map[ssa.Value]bool{}, carriers: map[string]bool{}, fieldSrc: map[string][]ssa.Value{}, classOf: map[string]string{}, structSrc: map[string]structSource{}, structLits: map[string]map[string]string{}}
 	for _, k := range carriers {
 		b.carriers[k] = true
 	}
@@ -186,6 +189,62 @@ func (b *binder) bind1(v ssa.Value, d int) string {
 				}
 			}
 		}
+		// a helper that is handed column objects and reads their cells itself: its k-th result, return by return, with
+		// the parameters standing for the call's arguments (exits that answer with zero values are the rejections)
+		if call, ok := x.Tuple.(*ssa.Call); ok && b.inlineD < 3 {
+			if cal := call.Call.StaticCallee(); cal != nil && !call.Call.IsInvoke() && b.c.P.isModuleFn(cal) && len(cal.Blocks) > 0 && len(cal.Params) == len(call.Call.Args) && len(naturalLoops(cal)) == 0 {
+				readsCol := false
+				for _, prm := range cal.Params {
+					if tn := typeName(prm.Type()); (strings.HasSuffix(tn, "csv.OptionalColumn") || strings.HasSuffix(tn, "csv.RequiredColumn")) && readsColumnParam(prm) {
+						readsCol = true
+					}
+				}
+				if readsCol {
+					var as []string
+					for _, a := range call.Call.Args {
+						as = append(as, b.bindD(a, d+1))
+					}
+					sub := b.withArgs(cal, as)
+					var vals []string
+					okAll := true
+					for _, blk := range cal.Blocks {
+						ret, isRet := blk.Instrs[len(blk.Instrs)-1].(*ssa.Return)
+						if !isRet || x.Index >= len(ret.Results) {
+							continue
+						}
+						rv := ret.Results[x.Index]
+						if _, isC := rv.(*ssa.Const); isC {
+							continue
+						}
+						if ld, isLd := rv.(*ssa.UnOp); isLd && ld.Op == token.MUL {
+							if al, isAl := ld.X.(*ssa.Alloc); isAl {
+								written := false
+								for _, r := range *al.Referrers() {
+									switch r.(type) {
+									case *ssa.FieldAddr, *ssa.Store, *ssa.Call:
+										written = true
+									}
+								}
+								if !written {
+									continue // the zero value
+								}
+							}
+						}
+						v := sub.bindD(rv, d+1)
+						if v == "" {
+							okAll = false
+						}
+						vals = append(vals, v)
+					}
+					if okAll && len(vals) > 0 {
+						for k, v := range sub.classOf {
+							b.classOf[k] = v
+						}
+						return alts(vals)
+					}
+				}
+			}
+		}
 		if call, ok := x.Tuple.(*ssa.Call); ok && b.showBodies && b.inlineD < 2 {
 			if cal := call.Call.StaticCallee(); cal != nil && !call.Call.IsInvoke() && b.c.P.isModuleFn(cal) && len(cal.Blocks) > 0 && !isProtoPkg(fnPkgPath(cal)) {
 				var as []string
@@ -284,6 +343,12 @@ func (b *binder) bind1(v ssa.Value, d int) string {
 		if r, ok := b.structField(base, x.Field, d); ok {
 			return r
 		}
+		if lit, ok := b.structLits[base]; ok {
+			if fv, has := lit[fieldName(x.X.Type(), x.Field)]; has {
+				return fv
+			}
+			return "zero(" + typeName(x.X.Type()) + ")." + fieldName(x.X.Type(), x.Field)
+		}
 		return base + "." + fieldName(x.X.Type(), x.Field)
 	case *ssa.IndexAddr:
 		return "&" + b.bindD(x.X, d+1) + "[" + b.bindD(x.Index, d+1) + "]"
@@ -302,6 +367,40 @@ func (b *binder) bind1(v ssa.Value, d int) string {
 				as = append(as, b.bindD(sv, d+1))
 			}
 			if len(as) == 0 {
+				// a struct literal built in place: its fields, one store each
+				if sst, isSt := deref(a.Type()).Underlying().(*types.Struct); isSt && b.structLits != nil && (b.litForm || unexportedModuleStruct(deref(a.Type()))) {
+					fields := map[string]string{}
+					okLit := true
+					for _, r := range *a.Referrers() {
+						fa, isFA := r.(*ssa.FieldAddr)
+						if !isFA {
+							continue
+						}
+						for _, r2 := range *fa.Referrers() {
+							if st, isStore := r2.(*ssa.Store); isStore && st.Addr == ssa.Value(fa) {
+								fn := sst.Field(fa.Field).Name()
+								if _, dup := fields[fn]; dup {
+									okLit = false
+								}
+								fields[fn] = b.bindD(st.Val, d+1)
+							}
+						}
+					}
+					if okLit && len(fields) > 0 {
+						var names []string
+						for fn := range fields {
+							names = append(names, fn)
+						}
+						sort.Strings(names)
+						var parts []string
+						for _, fn := range names {
+							parts = append(parts, fn+"="+fields[fn])
+						}
+						out := "lit(" + typeName(deref(a.Type())) + "){" + strings.Join(parts, ";") + "}"
+						b.structLits[out] = fields
+						return out
+					}
+				}
 				return "zero(" + typeName(deref(a.Type())) + ")"
 			}
 			return alts(as)
@@ -337,6 +436,69 @@ func (b *binder) bind1(v ssa.Value, d int) string {
 									}
 								}
 								as = append(as, b.bindD(st.Val, d+1))
+							}
+						}
+					}
+				}
+				// the array variable holds what a helper of the module returned: the helper's own local array, filled there
+				// (element k of `days := cols.read()` is what read() stored at index k)
+				if len(as) == 0 && isC && b.inlineD < 3 {
+					for _, sv := range cellStores(arr) {
+						call, isCall := sv.(*ssa.Call)
+						if !isCall || call.Call.IsInvoke() {
+							continue
+						}
+						h := call.Call.StaticCallee()
+						if h == nil || !b.c.P.isModuleFn(h) || len(h.Blocks) == 0 || len(h.Params) != len(call.Call.Args) {
+							continue
+						}
+						var args []string
+						for _, av := range call.Call.Args {
+							args = append(args, b.bindD(av, d+1))
+						}
+						sub := b.withArgs(h, args)
+						for _, hb := range h.Blocks {
+							ret, isRet := hb.Instrs[len(hb.Instrs)-1].(*ssa.Return)
+							if !isRet || len(ret.Results) != 1 {
+								continue
+							}
+							ld, isLd := ret.Results[0].(*ssa.UnOp)
+							if !isLd || ld.Op != token.MUL {
+								continue
+							}
+							harr, isAl := ld.X.(*ssa.Alloc)
+							if !isAl {
+								continue
+							}
+							for _, r := range *harr.Referrers() {
+								ia, ok := r.(*ssa.IndexAddr)
+								if !ok {
+									continue
+								}
+								for _, r2 := range *ia.Referrers() {
+									st, ok := r2.(*ssa.Store)
+									if !ok || st.Addr != ssa.Value(ia) {
+										continue
+									}
+									if kk, isK := constInt(ia.Index); isK {
+										if kk == k {
+											as = append(as, sub.bindD(st.Val, d+1))
+										}
+										continue
+									}
+									if n, isR := rangeIndexConst(ia.Index); (isR && k < n) || rangeIndexSeq(ia.Index) != nil {
+										saved := idxSubst
+										ns := map[ssa.Value]int64{}
+										for kk, vv := range saved {
+											ns[kk] = vv
+										}
+										ns[ia.Index] = k
+										idxSubst = ns
+										s2 := b.withArgs(h, args)
+										as = append(as, s2.bindD(st.Val, d+1))
+										idxSubst = saved
+									}
+								}
 							}
 						}
 					}
@@ -440,7 +602,18 @@ func (b *binder) fieldRef(base ssa.Value, field int, d int) string {
 	if b.carriers[tn] {
 		var as []string
 		for _, v := range b.fieldSrc[tn+"."+fname] {
-			as = append(as, b.bindD(v, d+1))
+			s := b.bindD(v, d+1)
+			// the carrier is filled in a constructor helper from its parameters: say what the callers pass
+			if strings.Contains(s, "param:") && v.Parent() != nil && d < 12 {
+				within := map[*ssa.Function]bool{}
+				for _, e := range b.c.P.Callers(v.Parent()) {
+					within[e.Caller] = true
+				}
+				if s2 := b.bindInContext(v.Parent(), v, within, 2); s2 != "" {
+					s = s2
+				}
+			}
+			as = append(as, s)
 		}
 		if len(as) > 0 {
 			return alts(as)
@@ -463,6 +636,14 @@ func (b *binder) fieldRef(base ssa.Value, field int, d int) string {
 			bs := b.bindD(sv, d+1)
 			if r, ok := b.structField(bs, field, d); ok {
 				as = append(as, r) // a struct a helper returned, copied into this variable
+				continue
+			}
+			if lit, ok := b.structLits[bs]; ok {
+				if fv, has := lit[fname]; has {
+					as = append(as, fv)
+				} else {
+					as = append(as, "zero("+tn+")."+fname)
+				}
 				continue
 			}
 			as = append(as, selectField(bs, fname))
@@ -641,7 +822,14 @@ func (b *binder) bindCall(x *ssa.Call, d int) string {
 		return protoFieldLeaf(cal.Params[0].Type(), strings.TrimPrefix(cal.Name(), "Get")) + "?"
 	}
 	var as []string
-	for _, a := range cc.Args {
+	for i, a := range cc.Args {
+		// a column object handed to a helper that reads it: the helper's result is a function of that column's cell
+		if tn := typeName(a.Type()); (strings.HasSuffix(tn, "csv.OptionalColumn") || strings.HasSuffix(tn, "csv.RequiredColumn")) && i < len(cal.Params) && b.c.P.isModuleFn(cal) && readsColumnParam(cal.Params[i]) {
+			if ci, _ := resolveColumn(a, 0); ci != nil {
+				as = append(as, "col:"+ci.name)
+				continue
+			}
+		}
 		as = append(as, b.bindD(a, d+1))
 	}
 	if s, ok := b.inlineSelector(cal, as, -1, d); ok {
@@ -650,7 +838,7 @@ func (b *binder) bindCall(x *ssa.Call, d int) string {
 	// a local closure over the function's column objects that is told by a constant which column to read
 	// (`runsOn := func(day int) bool { return cols[day].Read() == "1" }; runsOn(3)`): its one result with the
 	// constant put in place of the parameter
-	if cal.Parent() != nil && len(cal.Blocks) == 1 && len(cal.Params) == len(cc.Args) && len(cc.Args) > 0 && b.inlineD < 3 {
+	if (cal.Parent() != nil || b.c.P.isModuleFn(cal)) && len(cal.Blocks) == 1 && len(cal.Params) == len(cc.Args) && len(cc.Args) > 0 && b.inlineD < 3 {
 		if ret, isRet := cal.Blocks[0].Instrs[len(cal.Blocks[0].Instrs)-1].(*ssa.Return); isRet && len(ret.Results) == 1 {
 			allConst := true
 			saved := idxSubst
@@ -658,13 +846,22 @@ func (b *binder) bindCall(x *ssa.Call, d int) string {
 			for k, v := range saved {
 				ns[k] = v
 			}
+			nConst := 0
 			for i, a := range cc.Args {
 				k, isC := constInt(a)
 				if !isC {
+					// the receiver of a method on a column array type: the array itself, resolved where it is indexed
+					if _, isArr := a.Type().Underlying().(*types.Array); isArr && cal.Parent() == nil {
+						continue
+					}
 					allConst = false
 					break
 				}
+				nConst++
 				ns[cal.Params[i]] = k
+			}
+			if nConst == 0 {
+				allConst = false
 			}
 			readsColumn := false
 			for _, in := range cal.Blocks[0].Instrs {
@@ -1023,8 +1220,15 @@ func (b *binder) classAllowed(cl string, allowed []string) bool {
 			return okVal(call, d+1)
 		case *ssa.Call:
 			cal := x.Call.StaticCallee()
-			if cal == nil || cal == h || len(x.Call.Args) != 1 || !isParam(x.Call.Args[0]) {
+			if cal == nil || cal == h || len(x.Call.Args) != 1 {
 				return false
+			}
+			if !isParam(x.Call.Args[0]) {
+				// the cell of a column object that is a parameter
+				rd, isRd := x.Call.Args[0].(*ssa.Call)
+				if !isRd || len(rd.Call.Args) != 1 || !isParam(rd.Call.Args[0]) || !strings.HasSuffix(calleeName(rd), "Column).Read") {
+					return false
+				}
 			}
 			cls := sigClass(cal)
 			for _, a := range allowed {
@@ -1163,7 +1367,7 @@ var classTypeRewrite func(t types.Type, s string) string
 // withArgs: a binder for the body of cal in which cal's parameters stand for the given (already bound) arguments.
 func (b *binder) withArgs(cal *ssa.Function, args []string) *binder {
 	sub := &binder{c: b.c, memo: map[ssa.Value]string{}, busy: map[ssa.Value]bool{}, carriers: b.carriers, fieldSrc: b.fieldSrc, classOf: b.classOf,
-		subst: map[*ssa.Parameter]string{}, inlineD: b.inlineD + 1, catForm: b.catForm, structSrc: b.structSrc}
+		subst: map[*ssa.Parameter]string{}, inlineD: b.inlineD + 1, catForm: b.catForm, structSrc: b.structSrc, structLits: b.structLits, litForm: b.litForm}
 	if b.catForm {
 		if b.catRaw == nil {
 			b.catRaw = map[string][]string{}
@@ -1435,4 +1639,31 @@ func variadicElems(v ssa.Value) []ssa.Value {
 		}
 	}
 	return out
+}
+
+// readsColumnParam: the column object received as this parameter has its cell read (Read / ReadOr) in the function.
+func readsColumnParam(prm *ssa.Parameter) bool {
+	if prm.Referrers() == nil {
+		return false
+	}
+	for _, r := range *prm.Referrers() {
+		if call, ok := r.(*ssa.Call); ok && len(call.Call.Args) > 0 && call.Call.Args[0] == ssa.Value(prm) {
+			n := calleeName(call)
+			if strings.HasSuffix(n, "Column).Read") || strings.HasSuffix(n, "Column).ReadOr") {
+				return true
+			}
+		}
+	}
+	return false
+}
+
+// unexportedModuleStruct: a named struct type of the module whose name is not exported (a carrier for values that
+// travel together inside one file: its fields are whatever the one literal that builds it puts there).
+func unexportedModuleStruct(t types.Type) bool {
+	n, ok := t.(*types.Named)
+	if !ok || n.Obj().Pkg() == nil || !strings.HasPrefix(n.Obj().Pkg().Path(), modPath) || isProtoPkg(n.Obj().Pkg().Path()) {
+		return false
+	}
+	_, isSt := n.Underlying().(*types.Struct)
+	return isSt && !n.Obj().Exported()
 }
